@@ -9,12 +9,14 @@ variants visit exactly the fields (of that kind), each once, and Map variants st
 under the same key.
 
 All theorems hold for every heap `h`, every receiver address `a`, every kind `k` (not only the
-six the API offers) and every callback. The `Map` theorems are stated for callbacks whose
-results on the visited elements are *scalar* (`GoVal.isScalar`: anything but a Go slice / map /
-unsupported dynamic type, so that `parseVal` allocates nothing); the version for callbacks
-returning nested native values is NOT stated here (see the note before `C14_map`).
+six the API offers) and every callback. The `Map` theorems come in two forms: closed formulas
+for callbacks whose results on the visited elements are *scalar* (`GoVal.isScalar`: anything but
+a Go slice / map / unsupported dynamic type, so that `parseVal` allocates nothing), sections 5
+and 7; and the general, relational statements for arbitrary callbacks (results may allocate
+nested cells or make the call panic), section 8 (`C14_*_general*`).
 -/
 import Anytype.Lemmas.Views
+import Anytype.Lemmas.MapGeneral
 namespace Anytype
 
 /-- the selection of the typed list variant for kind `k` -/
@@ -155,17 +157,10 @@ theorem C14_reduce_untyped {α} (h : Heap) (a : Nat) (init : α) (f : α → Val
     L.reduce h a init f = ((h.items a).map h.getVal).foldl f init := by
   simp [L.reduce, L.reduceLoop_eq]
 
-/-! ### 5. MapX, Map, MapValues
+/-! ### 5. MapX, Map, MapValues (scalar callback results: closed formulas)
 
-Restriction (stated, not hidden): the callback's results on the visited elements are scalar
-(`GoVal.isScalar`). For a callback returning Go slices / maps, `parseVal` allocates further
-fresh cells between the additions to the result list; the result cell then holds the
-normalised results in the same order, but that general statement is NOT YET PROVED here:
-
-    theorem C14_map_general : L.mapK h a k f = (h1, .ok r) →
-      ∃ vs, h1.items r.addr = vs ∧ vs.length = ((h.items a).filterMap (selK h k)).length ∧
-        (i-th of vs is the value `parseVal` returns for `f` of the i-th selected element)
-        ∧ ∀ b < h.length, h1[b]? = h[b]?
+For a callback returning Go slices / maps, `parseVal` allocates further fresh cells between the
+additions to the result list; the general statements are in section 8.
 -/
 
 /-- a scalar result is stored by value; `parseVal` allocates nothing -/
@@ -339,6 +334,234 @@ theorem C14_obj_map_lookup (h : Heap) (a : Nat) (f : Str → Val → GoVal)
     rw [Heap.fields_append_self]
     exact lookup_map_val (fun k v => scalarVal (f k (h.getVal v))) (h.fields a) k
 
+/-! ### 8. Map variants with arbitrary callback results
+
+`f` is arbitrary: its results may be native slices / maps (nested fresh cells) or unsupported
+values (`parseVal` panics). Vocabulary (`Anytype/Lemmas/MapGeneral.lean`):
+
+* `MapSteps store g h₀ [x₀,…,xₙ₋₁] [v₀,…,vₙ₋₁] hₙ`: there are heaps with
+  `parseVal hᵢ (g xᵢ) = (hᵢ', .ok vᵢ)` and `hᵢ₊₁ = store hᵢ' xᵢ vᵢ` — every listed element is
+  visited once, in order, and its normalised result is stored before the next one is visited;
+* `storeL res` is `result.Add(v)`, `storeO res key` is `result.Set(key x, v)` on cell `res`;
+* `runL h g xs` / `runO h key g xs`: allocate the empty result cell at address `h.length`, run
+  the loop over `xs`, hand the cell back (or the panic).
+-/
+
+/-- `MapX(f)` visits exactly the selected elements (selection made on the heap before the call:
+nothing the callback results allocate changes what is selected) -/
+theorem C14_map_general_eq (h : Heap) (a : Nat) (k : Kind) (f : Val → GoVal) :
+    L.mapK h a k f = runL h f ((h.items a).filterMap (selK h k)) :=
+  L.mapK_eq_runL h a k f
+
+/-- success: the result is the fresh cell, every old cell is unchanged, and the items of the
+result cell are, in order, the normalised results for the selected elements -/
+theorem C14_map_general (h : Heap) (a : Nat) (k : Kind) (f : Val → GoVal) (h' : Heap) (r : Ref)
+    (hm : L.mapK h a k f = (h', .ok r)) :
+    r = ⟨h.length, 0⟩ ∧ (∀ b, b < h.length → h'[b]? = h[b]?) ∧ (∀ b, h'.ego b = h.ego b) ∧
+    ∃ vs, MapSteps (storeL h.length) f (h ++ [.list [] 0]) ((h.items a).filterMap (selK h k)) vs h' ∧
+      h'.items r.addr = vs ∧ vs.length = ((h.items a).filterMap (selK h k)).length := by
+  rw [C14_map_general_eq] at hm; exact runL_ok_facts hm
+
+/-- … and conversely: the call succeeds exactly when every `parseVal` along the chain does -/
+theorem C14_map_general_iff (h : Heap) (a : Nat) (k : Kind) (f : Val → GoVal) (h' : Heap)
+    (r : Ref) :
+    L.mapK h a k f = (h', .ok r) ↔ r = ⟨h.length, 0⟩ ∧
+      ∃ vs, MapSteps (storeL h.length) f (h ++ [.list [] 0])
+        ((h.items a).filterMap (selK h k)) vs h' := by
+  rw [C14_map_general_eq]; exact runL_ok_iff _ _ _ _ _
+
+/-- panic: exactly when, after a successful run over a prefix of the selected elements, the
+next result makes `parseVal` panic; the call panics with that kind -/
+theorem C14_map_general_panic_iff (h : Heap) (a : Nat) (k : Kind) (f : Val → GoVal) (h' : Heap)
+    (p : PanicKind) :
+    L.mapK h a k f = (h', .panic p) ↔
+      ∃ xs₁ x xs₂ vs h₁, (h.items a).filterMap (selK h k) = xs₁ ++ x :: xs₂ ∧
+        MapSteps (storeL h.length) f (h ++ [.list [] 0]) xs₁ vs h₁ ∧
+        parseVal h₁ (f x) = (h', .panic p) := by
+  rw [C14_map_general_eq]; exact runL_panic_iff _ _ _ _ _
+
+/-- success or panic: all old cells are unchanged (and so is the `ego` table) -/
+theorem C14_map_general_frame (h : Heap) (a : Nat) (k : Kind) (f : Val → GoVal) :
+    h.length ≤ (L.mapK h a k f).1.length ∧ (∀ b, b < h.length → (L.mapK h a k f).1[b]? = h[b]?) ∧
+    ∀ b, (L.mapK h a k f).1.ego b = h.ego b := by
+  rw [C14_map_general_eq]
+  exact ⟨(runL_fr _ _ _).len, (runL_fr _ _ _).old, (runL_fr _ _ _).ego⟩
+
+/-- `Map(f)` visits exactly the invocations of `ForEach`: every element once, in order, with its
+index and `getVal()` of it -/
+theorem C14_map_untyped_general_eq (h : Heap) (a : Nat) (f : Int → Val → GoVal) :
+    L.map h a f = runL h (fun q : Int × Val => f q.1 q.2) (L.forEach h a) :=
+  L.map_eq_runL h a f
+
+theorem C14_map_untyped_general (h : Heap) (a : Nat) (f : Int → Val → GoVal) (h' : Heap) (r : Ref)
+    (hm : L.map h a f = (h', .ok r)) :
+    r = ⟨h.length, 0⟩ ∧ (∀ b, b < h.length → h'[b]? = h[b]?) ∧ (∀ b, h'.ego b = h.ego b) ∧
+    ∃ vs, MapSteps (storeL h.length) (fun q : Int × Val => f q.1 q.2) (h ++ [.list [] 0])
+        (L.forEach h a) vs h' ∧
+      h'.items r.addr = vs ∧ vs.length = (h.items a).length := by
+  rw [C14_map_untyped_general_eq] at hm
+  have := runL_ok_facts hm
+  rwa [C14_foreach_untyped_length] at this
+
+theorem C14_map_untyped_general_iff (h : Heap) (a : Nat) (f : Int → Val → GoVal) (h' : Heap)
+    (r : Ref) :
+    L.map h a f = (h', .ok r) ↔ r = ⟨h.length, 0⟩ ∧
+      ∃ vs, MapSteps (storeL h.length) (fun q : Int × Val => f q.1 q.2) (h ++ [.list [] 0])
+        (L.forEach h a) vs h' := by
+  rw [C14_map_untyped_general_eq]; exact runL_ok_iff _ _ _ _ _
+
+theorem C14_map_untyped_general_panic_iff (h : Heap) (a : Nat) (f : Int → Val → GoVal)
+    (h' : Heap) (p : PanicKind) :
+    L.map h a f = (h', .panic p) ↔
+      ∃ xs₁ x xs₂ vs h₁, L.forEach h a = xs₁ ++ x :: xs₂ ∧
+        MapSteps (storeL h.length) (fun q : Int × Val => f q.1 q.2) (h ++ [.list [] 0]) xs₁ vs h₁ ∧
+        parseVal h₁ (f x.1 x.2) = (h', .panic p) := by
+  rw [C14_map_untyped_general_eq]; exact runL_panic_iff _ _ _ _ _
+
+theorem C14_map_untyped_general_frame (h : Heap) (a : Nat) (f : Int → Val → GoVal) :
+    h.length ≤ (L.map h a f).1.length ∧ (∀ b, b < h.length → (L.map h a f).1[b]? = h[b]?) ∧
+    ∀ b, (L.map h a f).1.ego b = h.ego b := by
+  rw [C14_map_untyped_general_eq]
+  exact ⟨(runL_fr _ _ _).len, (runL_fr _ _ _).old, (runL_fr _ _ _).ego⟩
+
+/-- `MapValues(f)` visits exactly the values `ForEachValue` hands out -/
+theorem C14_mapValues_general_eq (h : Heap) (a : Nat) (f : Val → GoVal) :
+    L.mapValues h a f = runL h f (L.forEachValue h a) :=
+  L.mapValues_eq_runL h a f
+
+theorem C14_mapValues_general (h : Heap) (a : Nat) (f : Val → GoVal) (h' : Heap) (r : Ref)
+    (hm : L.mapValues h a f = (h', .ok r)) :
+    r = ⟨h.length, 0⟩ ∧ (∀ b, b < h.length → h'[b]? = h[b]?) ∧ (∀ b, h'.ego b = h.ego b) ∧
+    ∃ vs, MapSteps (storeL h.length) f (h ++ [.list [] 0]) ((h.items a).map h.getVal) vs h' ∧
+      h'.items r.addr = vs ∧ vs.length = (h.items a).length := by
+  rw [C14_mapValues_general_eq, C14_foreachValue] at hm
+  have := runL_ok_facts hm
+  rwa [List.length_map] at this
+
+theorem C14_mapValues_general_iff (h : Heap) (a : Nat) (f : Val → GoVal) (h' : Heap) (r : Ref) :
+    L.mapValues h a f = (h', .ok r) ↔ r = ⟨h.length, 0⟩ ∧
+      ∃ vs, MapSteps (storeL h.length) f (h ++ [.list [] 0]) ((h.items a).map h.getVal) vs h' := by
+  rw [C14_mapValues_general_eq, C14_foreachValue]; exact runL_ok_iff _ _ _ _ _
+
+theorem C14_mapValues_general_panic_iff (h : Heap) (a : Nat) (f : Val → GoVal) (h' : Heap)
+    (p : PanicKind) :
+    L.mapValues h a f = (h', .panic p) ↔
+      ∃ xs₁ x xs₂ vs h₁, (h.items a).map h.getVal = xs₁ ++ x :: xs₂ ∧
+        MapSteps (storeL h.length) f (h ++ [.list [] 0]) xs₁ vs h₁ ∧
+        parseVal h₁ (f x) = (h', .panic p) := by
+  rw [C14_mapValues_general_eq, C14_foreachValue]; exact runL_panic_iff _ _ _ _ _
+
+theorem C14_mapValues_general_frame (h : Heap) (a : Nat) (f : Val → GoVal) :
+    h.length ≤ (L.mapValues h a f).1.length ∧
+    (∀ b, b < h.length → (L.mapValues h a f).1[b]? = h[b]?) ∧
+    ∀ b, (L.mapValues h a f).1.ego b = h.ego b :=
+  C14_map_untyped_general_frame h a _
+
+/-- object `Map(f)` visits exactly the invocations of the object `ForEach`: every field once,
+with its key and `getVal()` of its value -/
+theorem C14_obj_map_general_eq (h : Heap) (a : Nat) (f : Str → Val → GoVal) :
+    O.map h a f = runO h Prod.fst (fun q : Str × Val => f q.1 q.2) (O.forEach h a) :=
+  O.map_eq_runO h a f
+
+/-- success (distinct keys): fresh object cell, old cells unchanged, and the i-th normalised
+result is stored under the key of the i-th field; no other key is present -/
+theorem C14_obj_map_general (h : Heap) (a : Nat) (f : Str → Val → GoVal)
+    (hnd : ((h.fields a).map (·.1)).Nodup) (h' : Heap) (r : Ref)
+    (hm : O.map h a f = (h', .ok r)) :
+    r = ⟨h.length, 0⟩ ∧ (∀ b, b < h.length → h'[b]? = h[b]?) ∧ (∀ b, h'.ego b = h.ego b) ∧
+    ∃ vs, MapSteps (storeO h.length Prod.fst) (fun q : Str × Val => f q.1 q.2) (h ++ [.obj [] 0])
+        (O.forEach h a) vs h' ∧
+      vs.length = (O.forEach h a).length ∧
+      h'.fields r.addr = ((O.forEach h a).map Prod.fst).zip vs ∧
+      (∀ (i : Nat) (hi : i < (O.forEach h a).length) (hv : i < vs.length),
+        lookup (h'.fields r.addr) ((O.forEach h a)[i]).1 = some vs[i]) ∧
+      (∀ k, k ∉ (O.forEach h a).map Prod.fst → lookup (h'.fields r.addr) k = none) := by
+  rw [C14_obj_map_general_eq] at hm
+  exact runO_ok_facts (by rw [O.forEach_keys]; exact hnd) hm
+
+theorem C14_obj_map_general_iff (h : Heap) (a : Nat) (f : Str → Val → GoVal) (h' : Heap)
+    (r : Ref) :
+    O.map h a f = (h', .ok r) ↔ r = ⟨h.length, 0⟩ ∧
+      ∃ vs, MapSteps (storeO h.length Prod.fst) (fun q : Str × Val => f q.1 q.2)
+        (h ++ [.obj [] 0]) (O.forEach h a) vs h' := by
+  rw [C14_obj_map_general_eq]; exact runO_ok_iff _ _ _ _ _ _
+
+theorem C14_obj_map_general_panic_iff (h : Heap) (a : Nat) (f : Str → Val → GoVal) (h' : Heap)
+    (p : PanicKind) :
+    O.map h a f = (h', .panic p) ↔
+      ∃ xs₁ x xs₂ vs h₁, O.forEach h a = xs₁ ++ x :: xs₂ ∧
+        MapSteps (storeO h.length Prod.fst) (fun q : Str × Val => f q.1 q.2) (h ++ [.obj [] 0])
+          xs₁ vs h₁ ∧
+        parseVal h₁ (f x.1 x.2) = (h', .panic p) := by
+  rw [C14_obj_map_general_eq]; exact runO_panic_iff _ _ _ _ _ _
+
+theorem C14_obj_map_general_frame (h : Heap) (a : Nat) (f : Str → Val → GoVal) :
+    h.length ≤ (O.map h a f).1.length ∧ (∀ b, b < h.length → (O.map h a f).1[b]? = h[b]?) ∧
+    ∀ b, (O.map h a f).1.ego b = h.ego b := by
+  rw [C14_obj_map_general_eq]
+  exact ⟨(runO_fr _ _ _ _).len, (runO_fr _ _ _ _).old, (runO_fr _ _ _ _).ego⟩
+
+/-- the fields the object `MapX` visits: exactly the fields of kind `kd`, each with its key and
+what the selection hands on, in field order -/
+theorem C14_obj_visitsK (h : Heap) (a : Nat) (kd : Kind) :
+    O.visitsK h kd (h.fields a)
+      = (h.fields a).filterMap (fun kv => (selK h kd kv.2).map (fun x => (kv.1, x))) ∧
+    (O.visitsK h kd (h.fields a)).map Prod.snd = ((h.fields a).map (·.2)).filterMap (selK h kd) := by
+  refine ⟨rfl, ?_⟩
+  unfold O.visitsK
+  induction h.fields a with
+  | nil => rfl
+  | cons p fs ih =>
+    cases hs : L.sel h (L.viaGetValL kd) kd p.2 with
+    | none =>
+      simp only [List.filterMap_cons, List.map_cons, selK, hs, Option.map_none]; exact ih
+    | some x =>
+      simp only [List.filterMap_cons, List.map_cons, selK, hs, Option.map_some]
+      exact congrArg _ ih
+
+theorem C14_obj_mapK_general_eq (h : Heap) (a : Nat) (kd : Kind) (f : Val → GoVal) :
+    O.mapK h a kd f
+      = runO h Prod.fst (fun q : Str × Val => f q.2) (O.visitsK h kd (h.fields a)) :=
+  O.mapK_eq_runO h a kd f
+
+theorem C14_obj_mapK_general (h : Heap) (a : Nat) (kd : Kind) (f : Val → GoVal)
+    (hnd : ((h.fields a).map (·.1)).Nodup) (h' : Heap) (r : Ref)
+    (hm : O.mapK h a kd f = (h', .ok r)) :
+    r = ⟨h.length, 0⟩ ∧ (∀ b, b < h.length → h'[b]? = h[b]?) ∧ (∀ b, h'.ego b = h.ego b) ∧
+    ∃ vs, MapSteps (storeO h.length Prod.fst) (fun q : Str × Val => f q.2) (h ++ [.obj [] 0])
+        (O.visitsK h kd (h.fields a)) vs h' ∧
+      vs.length = (O.visitsK h kd (h.fields a)).length ∧
+      h'.fields r.addr = ((O.visitsK h kd (h.fields a)).map Prod.fst).zip vs ∧
+      (∀ (i : Nat) (hi : i < (O.visitsK h kd (h.fields a)).length) (hv : i < vs.length),
+        lookup (h'.fields r.addr) ((O.visitsK h kd (h.fields a))[i]).1 = some vs[i]) ∧
+      (∀ k, k ∉ (O.visitsK h kd (h.fields a)).map Prod.fst →
+        lookup (h'.fields r.addr) k = none) := by
+  rw [C14_obj_mapK_general_eq] at hm
+  exact runO_ok_facts (O.visitsK_nodup h kd _ hnd) hm
+
+theorem C14_obj_mapK_general_iff (h : Heap) (a : Nat) (kd : Kind) (f : Val → GoVal) (h' : Heap)
+    (r : Ref) :
+    O.mapK h a kd f = (h', .ok r) ↔ r = ⟨h.length, 0⟩ ∧
+      ∃ vs, MapSteps (storeO h.length Prod.fst) (fun q : Str × Val => f q.2)
+        (h ++ [.obj [] 0]) (O.visitsK h kd (h.fields a)) vs h' := by
+  rw [C14_obj_mapK_general_eq]; exact runO_ok_iff _ _ _ _ _ _
+
+theorem C14_obj_mapK_general_panic_iff (h : Heap) (a : Nat) (kd : Kind) (f : Val → GoVal)
+    (h' : Heap) (p : PanicKind) :
+    O.mapK h a kd f = (h', .panic p) ↔
+      ∃ xs₁ x xs₂ vs h₁, O.visitsK h kd (h.fields a) = xs₁ ++ x :: xs₂ ∧
+        MapSteps (storeO h.length Prod.fst) (fun q : Str × Val => f q.2) (h ++ [.obj [] 0])
+          xs₁ vs h₁ ∧
+        parseVal h₁ (f x.2) = (h', .panic p) := by
+  rw [C14_obj_mapK_general_eq]; exact runO_panic_iff _ _ _ _ _ _
+
+theorem C14_obj_mapK_general_frame (h : Heap) (a : Nat) (kd : Kind) (f : Val → GoVal) :
+    h.length ≤ (O.mapK h a kd f).1.length ∧
+    (∀ b, b < h.length → (O.mapK h a kd f).1[b]? = h[b]?) ∧
+    ∀ b, (O.mapK h a kd f).1.ego b = h.ego b := by
+  rw [C14_obj_mapK_general_eq]
+  exact ⟨(runO_fr _ _ _ _).len, (runO_fr _ _ _ _).old, (runO_fr _ _ _ _).ego⟩
+
 /-! ### non-vacuity: concrete instances -/
 
 section Examples
@@ -395,6 +618,37 @@ example : O.mapK exHeap 2 .int exInc
   rw [C14_obj_mapK exHeap 2 .int exInc (by decide) (by decide)]; rfl
 example : O.forEachK exHeap 2 .int = [.int 10, .int 30] := by decide
 
+/-- a callback whose results allocate: every int becomes a two-element native slice; and one
+that is unsupported from the second int on -/
+def exDup : Val → GoVal
+  | .int i => .slice .any [.intw .int i, .slice .int [.intw .int (i + 1)]]
+  | _ => .unsupported
+
+def exBad : Val → GoVal
+  | .int 1 => .intw .int 1
+  | _ => .slice .any [.nil, .unsupported]
+
+/-- the hypothesis of `C14_map_general` is satisfiable with nested results: cells 4–9 are the
+nested cells, cell 3 the result, cells 0–2 unchanged -/
+example : L.mapK exHeap 0 .int exDup
+    = (exHeap ++ [.list [.list ⟨4, 0⟩, .list ⟨6, 0⟩, .list ⟨8, 0⟩] 0,
+        .list [.int 1, .list ⟨5, 0⟩] 0, .list [.int 2] 0,
+        .list [.int 2, .list ⟨7, 0⟩] 0, .list [.int 3] 0,
+        .list [.int 3, .list ⟨9, 0⟩] 0, .list [.int 4] 0], .ok ⟨3, 0⟩) := by rfl
+
+/-- the hypothesis of `C14_map_general_panic_iff`: the first int is stored, the second result
+panics inside a nested slice -/
+example : (L.mapK exHeap 0 .int exBad).2 = .panic .unsupported ∧
+    (L.mapK exHeap 0 .int exBad).1.items 3 = [.int 1] := ⟨by rfl, by rfl⟩
+
+/-- hypotheses of `C14_obj_map_general` / `C14_obj_mapK_general` with allocating results -/
+example : (O.mapK exHeap 2 .int exDup).2 = .ok ⟨3, 0⟩ ∧
+    (O.mapK exHeap 2 .int exDup).1.fields 3 = [(['a'], .list ⟨4, 0⟩), (['c'], .list ⟨6, 0⟩)] :=
+  ⟨by rfl, by rfl⟩
+example : (O.map exHeap 2 (fun _ v => exDup v)).2 = .panic .unsupported := by rfl
+example : (L.map exHeap 1 (fun i _ => .slice .int [.intw .int i])).2 = .ok ⟨3, 0⟩ ∧
+    (L.mapValues exHeap 1 (fun _ => .map .any [(['k'], .nil)])).2 = .ok ⟨3, 0⟩ := ⟨by rfl, by rfl⟩
+
 /-- hypothesis of the permutation theorems: a genuinely different order -/
 example : ([(['c'], Val.int 30), (['a'], .int 10), (['d'], .list ⟨1, 0⟩), (['b'], .str ['x'])]).Perm
     (exHeap.fields 2) := by decide
@@ -446,3 +700,29 @@ end Anytype
 #print axioms Anytype.C14_obj_mapK
 #print axioms Anytype.C14_obj_mapK_lookup
 #print axioms Anytype.C14_obj_map_lookup
+#print axioms Anytype.C14_map_general_eq
+#print axioms Anytype.C14_map_general
+#print axioms Anytype.C14_map_general_iff
+#print axioms Anytype.C14_map_general_panic_iff
+#print axioms Anytype.C14_map_general_frame
+#print axioms Anytype.C14_map_untyped_general_eq
+#print axioms Anytype.C14_map_untyped_general
+#print axioms Anytype.C14_map_untyped_general_iff
+#print axioms Anytype.C14_map_untyped_general_panic_iff
+#print axioms Anytype.C14_map_untyped_general_frame
+#print axioms Anytype.C14_mapValues_general_eq
+#print axioms Anytype.C14_mapValues_general
+#print axioms Anytype.C14_mapValues_general_iff
+#print axioms Anytype.C14_mapValues_general_panic_iff
+#print axioms Anytype.C14_mapValues_general_frame
+#print axioms Anytype.C14_obj_map_general_eq
+#print axioms Anytype.C14_obj_map_general
+#print axioms Anytype.C14_obj_map_general_iff
+#print axioms Anytype.C14_obj_map_general_panic_iff
+#print axioms Anytype.C14_obj_map_general_frame
+#print axioms Anytype.C14_obj_visitsK
+#print axioms Anytype.C14_obj_mapK_general_eq
+#print axioms Anytype.C14_obj_mapK_general
+#print axioms Anytype.C14_obj_mapK_general_iff
+#print axioms Anytype.C14_obj_mapK_general_panic_iff
+#print axioms Anytype.C14_obj_mapK_general_frame
